@@ -508,8 +508,14 @@ def counts_follow_lists(ctx, rule):
                     r = vf.root_of(vf.expr(fn, inst["ptr"]))
                     if not (isinstance(r, tuple) and r[0] == "alloca"):
                         return ["linked"]
+                # the helper links the segment, it does not edit it: every octet of a segment is signed (RFC 8205 4.2)
+                if vf.root_of(vf.expr(fn, inst["ptr"])) == ("arg", 1) and not (vf.store_field(inst) or "").endswith(".next"):
+                    return ["edited:" + (vf.store_field(inst) or "?")]
             return None
         outs, _f = es.count_effects(fn, pdb, classify, None, cap=96)
+        edits = sorted({k for o in outs for k in o["counts"] if k.startswith("edited:")})
+        ctx.check(not edits, rule, "%s:segment-linked-unchanged" % fname, "%s:%d" % (fn.relfile, fn.line),
+                  ("the new segment is modified while being linked in: %s" % edits) if edits else "only the link field of the new segment is written", key="%s:%s:edit" % (rule, fname))
         bad = [o for o in outs if o["counts"].get("count?") or o["counts"].get("count+1", 0) != o["counts"].get("linked", 0) or
                (flow.av_single(o["ret"]) in (0, None) and o["counts"].get("linked", 0) != 1 and fn.d["ret"] == "void")]
         ctx.check(bool(outs) and not bad, rule, "%s:count-follows-list" % fname, (bad[0]["inst"].loc() if bad else "%s:%d" % (fn.relfile, fn.line)),
